@@ -5,6 +5,12 @@
 void GMGPolar::solve()
 {
     LIKWID_START("Solve");
+
+    /* Statistics and the run-time smoother switch describe this solve only. */
+    residual_norms_.clear();
+    exact_errors_.clear();
+    if (extrapolation_ == ExtrapolationType::COMBINED)
+        full_grid_smoothing_ = true;
     auto start_solve = std::chrono::high_resolution_clock::now();
 
     /* ---------------------------- */
